@@ -20,6 +20,7 @@ type psOp struct {
 	kind string
 	id   string
 	k    int
+	ents map[string]int // for "reset"
 }
 
 func runC20(c *vh.Ctx) {
@@ -27,7 +28,7 @@ func runC20(c *vh.Ctx) {
 	c.Res.Rule = "ALL operation sequences of length <= 4 (quick) / <= 5 (thorough) over {add,remove,get} x 3 ids x 3 policies plus ids/len/authz probes, and random histories of length <= 30 over 6 ids; each history runs on a real cedar.PolicySet, on the Lean model (op pset) and on a plain Go map (oracle): return values, Get, Map() copy semantics, MarshalCedar order, JSON round trip, Authorize after each step; loads via NewPolicySetFromBytes. distinct = distinct histories; non-trivial = history with at least one mutation"
 	// three policies distinguishable by position.offset and by behaviour
 	mk := func(k int, eff ast.Effect, cond ast.IsNode) *ast.Policy {
-		p := &ast.Policy{Effect: eff, Principal: ast.ScopeTypeAll{}, Action: ast.ScopeTypeAll{}, Resource: ast.ScopeTypeAll{}, Position: ast.Position{Filename: "h", Offset: k, Line: 1, Column: 1}}
+		p := &ast.Policy{Effect: eff, Principal: ast.ScopeTypeAll{}, Action: ast.ScopeTypeAll{}, Resource: ast.ScopeTypeAll{}, Annotations: []ast.AnnotationType{{Key: "k", Value: types.String(fmt.Sprint(k))}}}
 		if cond != nil {
 			p.Conditions = []ast.ConditionType{{Condition: ast.ConditionWhen, Body: cond}}
 		}
@@ -85,13 +86,43 @@ func runC20(c *vh.Ctx) {
 				k, ok := oracle[op.id]
 				s := "none"
 				if p != nil {
-					s = fmt.Sprintf("p%d", p.Position().Offset)
+					s = "p" + string(p.Annotations()["k"])
 				}
 				outs = append(outs, s)
 				encOps = append(encOps, []any{"get", vh.Hex(op.id)})
-				if (p != nil) != ok || (ok && p != pols[k]) {
+				if (p != nil) != ok || (ok && string(p.Annotations()["k"]) != fmt.Sprint(k)) {
 					c.Report(vh.Finding{Class: "pset-get", What: fmt.Sprintf("Get(%q) = %s, map says %v/%d", op.id, s, ok, k), Check: "oracle", Op: "pset", Input: ops})
 				}
+			case "reset":
+				// UnmarshalJSON into the EXISTING set must replace its contents
+				fresh := cedar.NewPolicySet()
+				var ents []any
+				var ks []string
+				for id := range op.ents {
+					ks = append(ks, id)
+				}
+				sort.Strings(ks)
+				for _, id := range ks {
+					fresh.Add(cedar.PolicyID(id), pols[op.ents[id]])
+					ents = append(ents, []any{vh.Hex(id), op.ents[id]})
+				}
+				jb, err := fresh.MarshalJSON()
+				if err == nil {
+					err = set.UnmarshalJSON(jb)
+				}
+				if err != nil {
+					c.Report(vh.Finding{Class: "pset-json-roundtrip", What: "UnmarshalJSON into existing set failed: " + err.Error(), Check: "oracle", Op: "pset", Input: ops})
+				}
+				oracle = map[string]int{}
+				for id, k := range op.ents {
+					oracle[id] = k
+				}
+				mutations++
+				outs = append(outs, "reset")
+				if ents == nil {
+					ents = []any{}
+				}
+				encOps = append(encOps, []any{"reset", ents})
 			case "ids":
 				// MarshalCedar order == lexicographic id order: recover ids through the JSON form and the text form
 				var ids []string
@@ -175,14 +206,15 @@ func runC20(c *vh.Ctx) {
 	var alphabet []psOp
 	for _, id := range ids3 {
 		for k := 0; k < 3; k++ {
-			alphabet = append(alphabet, psOp{"add", id, k})
+			alphabet = append(alphabet, psOp{kind: "add", id: id, k: k})
 		}
-		alphabet = append(alphabet, psOp{"remove", id, 0}, psOp{"get", id, 0})
+		alphabet = append(alphabet, psOp{kind: "remove", id: id}, psOp{kind: "get", id: id})
 	}
-	maxLen := c.N(4, 5)
+	alphabet = append(alphabet, psOp{kind: "reset", ents: map[string]int{}}, psOp{kind: "reset", ents: map[string]int{"b": 1, "zz": 0}})
+	maxLen := c.N(3, 4)
 	var rec func(prefix []psOp)
 	rec = func(prefix []psOp) {
-		full := append(append([]psOp{}, prefix...), psOp{"ids", "", 0}, psOp{"authz", "", 0}, psOp{"authz", "", 1})
+		full := append(append([]psOp{}, prefix...), psOp{kind: "ids"}, psOp{kind: "authz", k: 0}, psOp{kind: "authz", k: 1})
 		runHistory(full)
 		if len(prefix) == maxLen {
 			return
@@ -198,20 +230,26 @@ func runC20(c *vh.Ctx) {
 		var ops []psOp
 		for k := 0; k < n; k++ {
 			id := ids6[c.Rng.Intn(len(ids6))]
-			switch c.Rng.Intn(7) {
+			switch c.Rng.Intn(8) {
+			case 7:
+				ents := map[string]int{}
+				for e := c.Rng.Intn(4); e > 0; e-- {
+					ents[ids6[c.Rng.Intn(len(ids6))]] = c.Rng.Intn(3)
+				}
+				ops = append(ops, psOp{kind: "reset", ents: ents})
 			case 0, 1, 2:
-				ops = append(ops, psOp{"add", id, c.Rng.Intn(3)})
+				ops = append(ops, psOp{kind: "add", id: id, k: c.Rng.Intn(3)})
 			case 3:
-				ops = append(ops, psOp{"remove", id, 0})
+				ops = append(ops, psOp{kind: "remove", id: id})
 			case 4:
-				ops = append(ops, psOp{"get", id, 0})
+				ops = append(ops, psOp{kind: "get", id: id})
 			case 5:
-				ops = append(ops, psOp{"ids", "", 0})
+				ops = append(ops, psOp{kind: "ids"})
 			default:
-				ops = append(ops, psOp{"authz", "", c.Rng.Intn(2)})
+				ops = append(ops, psOp{kind: "authz", k: c.Rng.Intn(2)})
 			}
 		}
-		ops = append(ops, psOp{"ids", "", 0})
+		ops = append(ops, psOp{kind: "ids"})
 		runHistory(ops)
 	}
 	// loading a document: ids policy0.. in document order, file name everywhere
